@@ -318,7 +318,7 @@ func main() {
 		}
 		nHist, nSteps := 420, 150
 		if tier == "thorough" {
-			nHist, nSteps = 12000, 150
+			nHist, nSteps = 9000, 150
 		}
 		nHist = envInt("VERIF_HISTORIES", nHist)
 		nSteps = envInt("VERIF_STEPS", nSteps)
